@@ -21,7 +21,17 @@ for d in /verif/seeded/*/; do
     nf=""; echo "$out" | grep -q "no-failing-input-found" && nf=" (no-failing-input-found)"
     echo "$id CAUGHT by $prop$nf"
   else
-    echo "$id MISSED by $prop :: $(echo "$out" | tail -1 | cut -c1-120)"
+    # changes whose failure lies in another property's territory (e.g. needs two goroutines): the checks recorded in meta.json
+    others=$(python3 -c "import json,sys; m=json.load(open('$d/meta.json')); print(' '.join(k for k,v in m.get('our_checks',{}).items() if v.startswith('VIOLATION') and k!='$prop'))" 2>/dev/null)
+    hit=""
+    for o in $others; do
+      git -C $RP apply $d/patch.diff 2>/dev/null
+      out2=$(./check $o --tier $tier 2>&1 | grep -E "^(C[0-9]+: |VIOLATION)" | tail -2)
+      git -C $RP checkout -q -- . ; git -C $RP clean -fdq
+      if echo "$out2" | grep -q "VIOLATION"; then hit=$o; break; fi
+    done
+    if [ -n "$hit" ]; then echo "$id CAUGHT by $hit (not by $prop: see meta.json history)"
+    else echo "$id MISSED by $prop :: $(echo "$out" | tail -1 | cut -c1-120)"; fi
   fi
 done
 rm -rf $RP
